@@ -15,6 +15,25 @@ let key_of_name s =
   | _ -> if String.length s >= 2 && s.[0] = 'k' then int_of_string_opt (String.sub s 1 (String.length s - 1)) else None
 let nid_of_name s = if String.length s >= 2 && s.[0] = 'n' then int_of_string_opt (String.sub s 1 (String.length s - 1)) else None
 
+(* ---- timeout limits: the rule key of the model is value * 4 + unit index; the limit in ms comes from the extracted
+   Limit.parse_limit / Limit.limit_ms, not from this glue ---- *)
+let bytes_of_string (s : string) : nat list = List.init (String.length s) (fun i -> nat_of_int (Char.code s.[i]))
+let unit_index = function USecond -> 0 | UMinute -> 1 | UHour -> 2 | UDay -> 3
+let unit_letter = function 0 -> "s" | 1 -> "m" | 2 -> "h" | _ -> "d"
+exception Limit of string
+let limit_of_name (s : string) : int * z =
+  match parse_limit (bytes_of_string s) with
+  | Some (v, u) -> (int_of_z v * 4 + unit_index u, limit_ms (v, u))
+  | None -> raise (Limit s)
+(* decimal text of a Z that may not fit an OCaml int: through Int64 (values here are i64 by Limit.parse_i64_range / fits_i64) *)
+let rec int64_of_pos = function XH -> 1L | XO p -> Int64.mul 2L (int64_of_pos p) | XI p -> Int64.add (Int64.mul 2L (int64_of_pos p)) 1L
+let zstring = function
+  | Z0 -> "0"
+  | Zpos p -> Int64.to_string (int64_of_pos p)
+  | Zneg p -> (match p with
+               | _ -> let s = Int64.to_string (Int64.neg (int64_of_pos p)) in if s.[0] = '-' then s else "-" ^ s)
+let limit_name (k : int) : string = Printf.sprintf "%d%s" (k / 4) (unit_letter (k mod 4))
+
 (* ---- values / vars ---- *)
 let jval = function VNull -> Json.Null | VBool b -> Json.Bool b | VNum z -> Json.Int (int_of_z z)
 let val_of_json = function
@@ -147,7 +166,7 @@ and jact (Act (id, aif, spec, ins, outs, params, setup, catches, timeouts)) =
 and jcatch (Catch (on, steps)) =
   Json.Obj ((match on with None -> [] | Some k -> [("on", Json.Str (Printf.sprintf "e%d" (int_of_nat k)))]) @ [("steps", Json.Arr (List.map jstep steps))])
 and jtmo (Tmo (on, _, steps)) =
-  Json.Obj [("on", Json.Str (Printf.sprintf "%ds" (int_of_nat on))); ("steps", Json.Arr (List.map jstep steps))]
+  Json.Obj [("on", Json.Str (limit_name (int_of_nat on))); ("steps", Json.Arr (List.map jstep steps))]
 let jworkflow (w : workflow) : Json.t =
   Json.Obj ([("id", Json.Str (nname w.w_id)); ("steps", Json.Arr (List.map jstep w.w_steps))]
             @ nonempty "setup" w.w_setup (fun a -> Json.Obj (jspec_fields a))
@@ -182,8 +201,8 @@ and catch_of j =
   Catch ((match Json.get "on" j with Json.Str s -> Some (code_of s) | _ -> None), List.map step_of (Json.to_list (Json.get "steps" j)))
 and tmo_of j =
   let s = Json.to_str (Json.get "on" j) in
-  let k = (match int_of_string_opt (String.sub s 0 (String.length s - 1)) with Some k -> k | None -> raise (Case ("timeout " ^ s))) in
-  Tmo (nat_of_int k, z_of_int (k * 1000), List.map step_of (Json.to_list (Json.get "steps" j)))
+  let (k, lim) = limit_of_name s in
+  Tmo (nat_of_int k, lim, List.map step_of (Json.to_list (Json.get "steps" j)))
 let workflow_of (j : Json.t) : workflow =
   { w_id = id_of j; w_steps = List.map step_of (Json.to_list (Json.get "steps" j));
     w_ins = vars_of_json (Json.get "inputs" j); w_outs = vars_of_json (Json.get "outputs" j);
@@ -229,5 +248,5 @@ let print_events oc cid (e : eng) nstatic (evs : ev list) =
     | EAct ok -> Printf.fprintf oc "case %s: A %s\n" cid (if ok then "ok" else "err")
     | EPop t -> Printf.fprintf oc "case %s: X %d\n" cid (int_of_nat t)
     | EQuiet -> Printf.fprintf oc "case %s: Q\n" cid
-    | EFire (t, on, now, start, limit) -> Printf.fprintf oc "case %s: F %d %ds %d %d %d\n" cid (int_of_nat t) (int_of_nat on) (int_of_z now) (int_of_z start) (int_of_z limit)) evs
+    | EFire (t, on, now, start, limit) -> Printf.fprintf oc "case %s: F %d %s %d %d %d\n" cid (int_of_nat t) (limit_name (int_of_nat on)) (int_of_z now) (int_of_z start) (int_of_z limit)) evs
 let rec drop n l = if n <= 0 then l else match l with [] -> [] | _ :: t -> drop (n - 1) t
